@@ -67,7 +67,7 @@ func (in *c16Inst) c16RuleInvariant(c *mc.Ctx, path []string) {
 func c16Rules(c *mc.Ctx, depth int) {
 	ops := []string{"sub:rF0:update", "sub:rF2:update", "sub:rF1:update", "sub:rWh:update", "sub:rWw:update", "sub:rWw:logout", "sub:rF0:logout",
 		"sub:chainF:freeze", "sub:chainF:activate", "sub:chainF:logout", "conclude:approve", "conclude:reject", "restart", "vprobe:F", "vprobe:T"}
-	b := &mc.BFS{C: c, Name: "govmc-rules", MaxDepth: depth,
+	b := &mc.BFS{C: c, Name: "govmc-rules", MaxDepth: depth, EveryTransition: true,
 		Init:    func() mc.Instance { return newC16RuleInst() },
 		Enabled: func(x mc.Instance, d int) []string { return ops },
 		Apply: func(x mc.Instance, op string, path []string) (bool, bool) {
